@@ -645,7 +645,9 @@ int main(int argc, char **argv)
                 // only store let through (emulated) is a resolver publishing its dispatch slot
                 if (!getenv("SIM_NO_LIBDATA_MONITOR"))
                         cpu_lib_monitor(true);
+                reach_arm();
                 int rc = cmd == "run" ? cmd_run(argc, argv) : cmd_replay(argc > 2 ? argv[2] : "", argc > 3 && !strcmp(argv[3], "--trace"));
+                reach_dump();
                 cpu_lib_monitor(false); // the C runtime writes completed.0 in the library's .bss at exit
                 return rc;
         }
